@@ -14,8 +14,10 @@ RULE = ("kinds: gen (SampleSegregating incl. several samples at / below the size
         "on /repo); each clause of the property evaluated directly on the real output.  Non-trivial: at least one unobserved experiment.")
 THEOREMS = {
     "C13_sample_segregating_shape": "repaired logic (fixed=true), every permutation answer a permutation of the sample's indices: every unobserved output plate holds one sample and at most max experiments",
+    "C13_sample_segregating_even": "repaired logic (fixed=true), permutation contract: any two unobserved output plates holding experiments of the same sample differ in size by at most one (the plates of a sample are the np.array_split chunks)",
     "C13_sample_segregating_shape_refuted": "code as found (fixed=false): witness A,A,B,B,B with max 3 gives one plate '' of 5 > 3 experiments holding 2 samples",
     "C13_pairwise_single_sample": "Pairwise, every accepted oracle answer: every unobserved output plate holds one sample",
+    "C13_pairwise_singles_join_combo_plates": "Pairwise, every accepted oracle answer: every unobserved output row (single-agent ones included) sits on a plate generated_plate_k that holds a combination row of the row's own sample - single-agent experiments never open a plate of their own nor join another sample's plate",
     "C13_sparse_cover_covers": "SparseCover: every sample and every treatment id of the screen occurs in an observed output row; observed rows are labelled initial_plate, all others one common label; experiments otherwise unchanged",
     "C13_sparse_cover_loop_progress": "SparseCover, every state: while treatment ids remain the array offered by the while loop is not empty, whichever of its elements rng.choice answers the number of distinct remaining ids (control sentinel included) strictly drops, and the per-sample arrays are never empty",
     "C13_sparse_cover_iterations": "SparseCover, whenever it returns: exactly one answer per sample, then at most as many while-loop iterations as there are distinct treatment ids left uncovered by the per-sample phase (<= distinct ids of the screen); unused answers are handed back",
@@ -39,7 +41,9 @@ ASSUMPTIONS = [
     "see C11 for the reductions shared with it (constructor = plate-uniform check, ids = ranks of names, integer ceil / floor)",
 ]
 EXPLANATION = ("Models shared with C11 (Model/Retro.v, Pairwise.v, RetroInit.v); every clause of the property has a theorem, none is "
-               "partial.  Two clauses are false of the code as found and are kept visible as _refuted theorems (vm_compute witnesses, "
+               "partial; beyond the property text: the plates of one sample made by SampleSegregating differ in size by at most one, "
+               "and Pairwise puts every single-agent experiment on a generated plate holding a combination experiment of its own "
+               "sample (C13_pairwise_single_sample already covers the whole output, single-agent rows included).  Two clauses are false of the code as found and are kept visible as _refuted theorems (vm_compute witnesses, "
                "replayed on the real code by the first generated cases); the positive theorems are about the repaired logic selected by "
                "the model parameter `fixed`, and the correspondence runs whichever variant /repo contains (decided by replaying the "
                "canonical witnesses; reported as the extra check `variant-detected`).  The SparseCover while loop recurses on the "
@@ -86,8 +90,23 @@ def gen(rng, tier):
 
 
 def pred_more(desc, ex):
-    """clauses evaluated on the real run beyond retrolib.pred_shape (termination bound of SparseCover)"""
+    """clauses evaluated on the real run beyond retrolib.pred_shape (termination bound of SparseCover, even split of
+    SampleSegregating, single-agent assignment of Pairwise)"""
     inp, out, k = ex["inp"], ex["impl"], desc["kind"]
+    if k == "gen" and desc["cls"] == "ss":
+        by = {}
+        for p, rs in L.plates_of(out).items():
+            for sn in {L.sname(r) for r in rs}:
+                by.setdefault(sn, []).append(len(rs))
+        for sn, szs in by.items():
+            if max(szs) - min(szs) > 1:
+                return "sample-segregating-uneven-split: sample %r has plates of sizes %r" % (common.l2s(sn), sorted(szs))
+    if k == "gen" and desc["cls"] == "pairwise":
+        ctrl = desc["screen"]["ctrl"]
+        homes = {(tuple(r[1]), L.sname(r)) for r in L.unobs(out) if None not in L.tids(r, ctrl)}
+        for r in L.unobs(out):
+            if (tuple(r[1]), L.sname(r)) not in homes or not common.l2s(r[1]).startswith("generated_plate_"):
+                return "pairwise-row-without-combo-plate: plate %r holds no combination experiment of sample %r" % (common.l2s(r[1]), common.l2s(r[0]))
     if k == "sparse":
         ctrl = desc["screen"]["ctrl"]
         picks = [d[1] for d in ex["rec"].draws]
